@@ -70,7 +70,6 @@ type methodKey struct {
 var defaultInterp = []string{
 	"io", "strconv", "container/list", "sort", "strings", "bytes", "bufio", "unicode/utf8", "slices", "maps", "cmp",
 	"github.com/elliotchance/orderedmap", "encoding/csv", "io/fs", "path", "math/bits", "math",
-	"golang.org/x/text/unicode/norm", "golang.org/x/text/transform",
 }
 
 var defaultBodyOK = []string{
